@@ -17,6 +17,7 @@ STMTS = {
     'el': 'const _0 = <div id="a">t</div>;', 'comp-id': 'const _0 = <Foo>{{v1}}</Foo>;', 'comp-call': 'const _0 = <Foo>{{f1()}}</Foo>;', 'comp-kids': 'const _0 = <Foo>a{{v2}}<b/></Foo>;',
     'frag': 'const _0 = <>x{{v1}}</>;', 'Fragment': 'const _0 = <Fragment>x</Fragment>;', '_Fragment': 'const _0 = <_Fragment>{{v1}}</_Fragment>;', 'dir': 'const _0 = <div v-foo={{v1}} v-show={{v2}}/>;',
     'model': 'const _0 = <input v-model={{v1}}/>;', 'spread': 'const _0 = <div {{...s1}} class="c"/>;', 'arrowret': 'const _0 = () => <Foo>{{f1()}}</Foo>;', 'nested': 'const _0 = <Foo><C1>{{v1}}</C1></Foo>;',
+    'member-tag': 'const _0 = <v1.Foo>{{v2}}</v1.Foo>;', 'member-tag2': 'const _0 = (u) => <u.Cmp>{{f1()}}</u.Cmp>;',
     'param-tag': 'const _0 = (Foo) => <Foo a={{v1}}/>;', 'local-tag': 'const _0 = function () {{ const Foo = v1; return <Foo>{{v2}}</Foo>; }};', 'destructured-tag': 'const _0 = ({{ Foo, KeepAlive }}) => [<Foo/>, <KeepAlive>{{v1}}</KeepAlive>];',
     'comp-id-opt': 'const _0 = <C1>{{v3}}</C1>;', 'assign-self': 'let _0; _0 = <Foo>{{v1}}</Foo>;', 'text': 'const _0 = <p>  a  b </p>;', 'keepalive': 'const _0 = <KeepAlive>{{v1}}</KeepAlive>;',
 }
@@ -24,6 +25,7 @@ PREFIX = {
     'none': '', 'assign-same': 'v1 = 5;', 'assign-other': 'v2 = 5;', 'assign-member': 'o1.x = v1;', 'assign-in-fn': 'function p() {{ v1 = 1; }}', 'assign-arrow': 'const p = () => (v1 = 2);',
     'assign-op': 'v1 += 1;', 'assign-destructure': '[v1] = [3];', 'jsx-temp': 'const p = <Foo>{{f1()}}</Foo>;', 'jsx-unbound-keepalive': 'const p = <KeepAlive><Foo/></KeepAlive>;', 'jsx-bound-other-scope': 'const p = (Foo) => <Foo/>;', 'jsx-temp-fn': 'function p() {{ return <Foo>{{f1()}}</Foo>; }}',
     'jsx-temp-arrow': 'const p = () => <C1>{{f1()}}</C1>;', 'jsx-helper': 'const p = <Foo>{{v2}}</Foo>;', 'jsx-frag': 'const p = <>y</>;', 'jsx-el': 'const p = <span/>;',
+    'import-keepalive-alias': "import {{ KeepAlive as Foo }} from 'vue';", 'import-keepalive-alias2': "import {{ KeepAlive as Cmp, Teleport as C1 }} from 'vue';", 'import-other-alias': "import {{ Transition as Foo }} from 'vue';",
     'import-fragment': "import {{ Fragment }} from 'vue';", 'import-fragment-alias': "import {{ Fragment as _Fragment }} from 'vue';", 'import-cv': "import {{ createVNode as _createVNode }} from 'vue';",
     'user-slot': 'const _slot = 1;', 'user-isSlot': 'function _isSlot() {{ return false }}', 'jsx-assign': 'v1 = <Foo>{{v1}}</Foo>;', 'jsx-assign-other': 'v2 = <Foo>{{v2}}</Foo>;',
     'jsx-dir': 'const p = <div v-show={{v4}}/>;', 'two-temps': 'const p = <Foo>{{f1()}}</Foo>, q = <Foo>{{f1()}}</Foo>;', 'block': '{{ v1 = 1; const p = <Foo>{{f1()}}</Foo>; }}',
@@ -195,10 +197,13 @@ def jobs(tier):
     stmts = list(STMTS)
     pres = list(PREFIX)
     related = {('_Fragment', 'import-fragment-alias'), ('Fragment', 'import-fragment')}      # the import binds a name the statement references
+    binds = {'import-keepalive-alias': ['Foo'], 'import-other-alias': ['Foo'], 'import-keepalive-alias2': ['Cmp', 'C1']}
     for s in stmts:
         for p in pres:
             if (s, p) in related:
                 continue
+            if p in binds and s not in ('param-tag', 'local-tag', 'destructured-tag') and any(re.search(r'<%s[\s>/]' % n, STMTS[s]) for n in binds[p]):
+                continue        # the import binds the very identifier the statement's tag refers to
             out.append({'stmt': s, 'prefix': p})
             if (s, p) in related:
                 continue
